@@ -89,14 +89,14 @@ PROPS['C03'] = dict(
 
 PROPS['C04'] = dict(
     level='other',
-    technique='contract-based deductive verification (pyvc + z3, Lean bridge) for is_empty, is_deterministic and one direction of is_acyclic; bounded run-time contract checking for the other direction of is_acyclic and for get_accepted_words',
+    technique='contract-based deductive verification (pyvc + z3, Lean bridge) for is_empty, is_deterministic and both directions of is_acyclic; bounded run-time contract checking for get_accepted_words',
     level_text=('Deductive for EpsilonNFA.is_empty (worklist reachability, all automata, all orders; Lean lemma empty gives "no word accepted") and EpsilonNFA.is_deterministic '
-                '(postcondition is the property wording). is_acyclic: the answer False is proved sound (a cycle reachable from a start state exists: every pair in the work list holds a reachable state and a set of reachable states that reach it in at least one step); that the answer True excludes every reachable cycle (exhaustiveness of the path search) and get_accepted_words (order-dependent pruning, generator, termination) are bounded only. Mixed => other.'),
+                '(postcondition is the property wording). is_acyclic: the answer False is proved sound (a cycle reachable from a start state exists: every pair in the work list holds a reachable state and a set of reachable states that reach it in at least one step), and the answer True is proved sound through a ghost argument (for every walk from a start state that closes a cycle for the first time at its last state, the function does not return True: some prefix of that walk is always pending in the work list); the graph fact that a reachable cycle yields such a walk (shortest lasso) is assumed; termination is not verified. get_accepted_words (order-dependent pruning, generator, termination) is bounded only. Mixed => other.'),
     level_note='Trusted: VC generator, z3, Lean+Mathlib, closure-induction schema instances, value assumptions; termination of get_accepted_words on finite languages is only observed on the bounded scope with a step budget.',
-    pyvc=fa('ENFA.is_empty', 'ENFA.__bool__', 'ENFA.is_acyclic', 'ENFA.is_deterministic', 'NFA.is_deterministic', 'DFA.is_deterministic', 'ENFA.eclose', 'ENFA._get_next_states_from', 'ENFA._get_reachable_states', 'ENFA._get_states_leading_to_final') + [('contracts.fa_concrete', 'NTF.is_deterministic')],
+    pyvc=fa('ENFA.is_empty', 'ENFA.__bool__', 'ENFA.is_acyclic', 'ENFA.is_acyclic#exhaustive', 'ENFA.is_deterministic', 'NFA.is_deterministic', 'DFA.is_deterministic', 'ENFA.eclose', 'ENFA._get_next_states_from', 'ENFA._get_reachable_states', 'ENFA._get_states_leading_to_final') + [('contracts.fa_concrete', 'NTF.is_deterministic')],
     lean=['bridge/empty.lean', 'bridge/Link.lean'],
     bounded='bounded.c04', replayer='bounded.replay_fa',
-    bounded_only=['FiniteAutomaton.is_acyclic (answer True)', 'FiniteAutomaton.get_accepted_words', '_get_states_leading_to_final', 'NFA.is_deterministic', 'DFA.is_deterministic'],
+    bounded_only=['FiniteAutomaton.get_accepted_words', '_get_states_leading_to_final', 'NFA.is_deterministic', 'DFA.is_deterministic'],
     explanation='mixed: is_empty and is_deterministic proved; acyclicity and enumeration bounded',
     rule='case = one automaton built as every legal class; non-trivial = non-empty language with a nondeterministic or epsilon step',
     exhaustive_part=True,
@@ -252,10 +252,12 @@ mixed2('C12', [('contracts.cfg', 'CFG.is_empty'), ('contracts.cfg', 'CFG.get_rea
       'Deductive for get_reachable_symbols (exactly the symbols occurring in a sentential form derivable from the start symbol, by closure induction), for get_generating_symbols and get_nullable_symbols (the counter worklist _get_generating_or_nullable returns exactly the least set containing the terminals - resp. nothing - and the head of every production whose body lies in it; the memoising wrappers return it and keep their memo consistent), and for is_empty (start symbol not generating).',
       'contract-based deductive verification (pyvc + z3, Mathlib for the counting facts) for reachability, generating / nullable symbols and emptiness; bounded run-time contract checking for finiteness (networkx) and word enumeration', CFG_TRUST[:2] + ['get_generating_symbols is proved in contracts/cfg_gen.py (worklist with counters, against the least-set spec GNS); assumed there: the contract of the table builder CFG._set_impacts_and_remaining_lists (one counter cell per non-empty production initialised with the body length, one _impacts entry per body position), the four List.countP / List.count facts proved in bridge/count.lean, the induction principle of the least set (one instance), and that the memo fields hold None or the computed set'])
 
+CONV_JOBS = [('contracts.cfg_conv', 'CFGVariableConverter.' + k) for k in ('_set_index_state', '_get_state_index', '_set_index_symbol', '_get_symbol_index', '_get_indexes', '_create_new_variable', 'to_cfg_combined_variable', 'set_valid', 'is_valid_and_get')]
+CONV_TEXT = "Deductive for the triple-variable converter (pda.cfg_variable_converter, every method but the constructor): the index used for a state / symbol object is the entry of this converter's own dictionary for its value, whatever index an earlier converter cached on the object (it was not on the pinned tree: fix recorded as X-C19-converter-stale-index); a cell of the table that holds a variable is never changed, so the same triple always gets the same variable; every variable in the table is Variable(n) for an n below the counter and no n occurs twice, so different triples of registered states and symbols get different variables; set_valid only sets the flag of its cell. "
 mixed2('C13', [('contracts.pda', k) for k in ('fn.get_next_free[State]', 'fn.get_next_free[StackSymbol]', 'PDA.to_final_state', 'PDA.to_empty_stack')]
-       + [('contracts.cfg2pda', 'PDA.add_transition'), ('contracts.cfg2pda', 'CFG.to_pda'), ('contracts.cfg_creator', 'CfgCreatorC.get_stack_symbol_from')], [],
+       + [('contracts.cfg2pda', 'PDA.add_transition'), ('contracts.cfg2pda', 'CFG.to_pda'), ('contracts.cfg_creator', 'CfgCreatorC.get_stack_symbol_from')] + CONV_JOBS, [],
        'Deductive for PDA.to_final_state and PDA.to_empty_stack: the result has exactly the operand transitions plus the bottom-marker wrapper transitions, a start state, an end state and a bottom symbol that are proved fresh (not states / stack symbols of the operand, pairwise different) through the proved contract of get_next_free, for every PDA incl. ones that already use the reserved names; the operand is unchanged. '
-       'Deductive for CFG.to_pda: the result is exactly the one-state PDA of the textbook construction (one epsilon move per production pushing the converted body, one pop move per terminal, nothing else; start stack symbol = converted start symbol), through the proved contract of the public mutator PDA.add_transition, under a conversion of grammar symbols to stack symbols that is proved injective on the source of PDAObjectCreator.get_stack_symbol_from (it was not on the pinned tree: fix cc31095).',
+       'Deductive for CFG.to_pda: the result is exactly the one-state PDA of the textbook construction (one epsilon move per production pushing the converted body, one pop move per terminal, nothing else; start stack symbol = converted start symbol), through the proved contract of the public mutator PDA.add_transition, under a conversion of grammar symbols to stack symbols that is proved injective on the source of PDAObjectCreator.get_stack_symbol_from (it was not on the pinned tree: fix cc31095). ' + CONV_TEXT + 'PDA.to_cfg itself (itertools.product over the states) stays bounded.',
        'contract-based deductive verification (pyvc + z3) of the acceptance-mode wrappers, get_next_free, CFG.to_pda, PDA.add_transition and the symbol converter; bounded run-time contract checking (exact PDA membership oracle) for to_cfg and for the language statements',
        ['language statements of the two wrappers and of to_pda from their proved structure: Hopcroft-Motwani-Ullman Thm 6.9 / 6.11 / 6.13, assumed, backed by the bounded comparison',
         'to_pda: terminals of the grammar are required not to be cfg.Epsilon objects; str(value), "#TERM#" + s and s + "\'" are uninterpreted string functions; the PDA constructor and pda.utils.PDAObjectCreator.to_state/to_symbol/to_stack_symbol are modelled at value level (identity on objects of the right class) and not verified; that the while loop of get_stack_symbol_from terminates is not verified',
@@ -281,14 +283,14 @@ C19_FRAME_JOBS = [('contracts.fa', k) for k in ('ENFA.get_intersection', 'ENFA.g
     + [('contracts.cfg2pda', 'CFG.to_pda'), ('contracts.pda', 'PDA.to_final_state'), ('contracts.pda', 'PDA.to_empty_stack')] \
     + [('contracts.fst', k) for k in ('FST.union', 'FST.concatenate', 'FST.kleene_star')]
 mixed2('C19', [('contracts.cfg_cache', 'CFGCounters._get_generating_or_nullable'), ('contracts.cfg_gen', 'CFGGen._set_impacts_and_remaining_lists'), ('contracts.cfg_gen', 'CFGGen._get_generating_or_nullable'),
-               ('contracts.cfg_gen', 'CFGGen.get_generating_symbols'), ('contracts.cfg_gen', 'CFGGen.get_nullable_symbols')] + C19_FRAME_JOBS, [],
-       'Deductive, two pieces. (1) CFG._get_generating_or_nullable restores the memoised counters: for every grammar and iteration order, _remaining_lists and _impacts hold on return exactly the values they had right after _set_impacts_and_remaining_lists() (and the values at entry when the tables were already built), so get_generating_symbols / get_nullable_symbols / is_empty / remove_useless_symbols start from the same counters whatever was called before (property anchor "restore of decremented counters"). '
+               ('contracts.cfg_gen', 'CFGGen.get_generating_symbols'), ('contracts.cfg_gen', 'CFGGen.get_nullable_symbols')] + C19_FRAME_JOBS + CONV_JOBS, [],
+       'Deductive, three pieces. (3) ' + CONV_TEXT + '(1) CFG._get_generating_or_nullable restores the memoised counters: for every grammar and iteration order, _remaining_lists and _impacts hold on return exactly the values they had right after _set_impacts_and_remaining_lists() (and the values at entry when the tables were already built), so get_generating_symbols / get_nullable_symbols / is_empty / remove_useless_symbols start from the same counters whatever was called before (property anchor "restore of decremented counters"). '
        'In the second view (contracts/cfg_gen.py) the representation invariant of the memoised tables and memo fields (tables consistent with the productions, counters at their initial values, memo None or the least set) is proved to be established by the table builder and preserved by the worklist and by get_generating_symbols / get_nullable_symbols - the answer of these queries is therefore the same function of the productions whatever was called before. '
        '(2) For 26 conversions and operations (boolean operations, reverse, copy, determinisation, epsilon removal, to_fst on automata; reverse, unit elimination, useless-symbol removal, substitute, union, concatenate, closures, to_pda on grammars; to_final_state / to_empty_stack on PDAs; union, concatenate, kleene_star on transducers) the obligations "frame: <operand> unchanged" are discharged: the abstract view (states, alphabet, transitions, start/final; variables, terminals, start symbol, productions) of every operand is the same after the call, also when both operands are one object, and the result is a fresh object.',
        'contract-based deductive verification (pyvc + z3): restoration of the memoised counters of the CFG analyses, frame obligations of the proved conversions; bounded run-time contract checking (histories of calls compared with fresh equal objects) for everything else',
-       ['the frame obligations speak about the abstract views only: caches outside the view (Regex._enfa, CFG._normal_form, index_cfg_converter attributes on State/Variable/StackSymbol objects, IndexedGrammar.marked) are covered by the bounded histories only',
+       ['the frame obligations speak about the abstract views only: caches outside the view (Regex._enfa, CFG._normal_form, IndexedGrammar.marked) are covered by the bounded histories only',
         'in contracts/cfg_cache.py the contract of CFG._set_impacts_and_remaining_lists is assumed (it is proved in the other view, contracts/cfg_gen.py); _remaining_lists is viewed as symbol -> (index -> count) there and as symbol -> (length, array) in cfg_gen',
-        'other caches (CFG._normal_form, Regex._enfa, converter indices) are not under contract'])
+        'other caches (CFG._normal_form, Regex._enfa) are not under contract; the converter is proved method by method, its constructor (enumerate with an attribute as loop target, nested comprehension) is assumed to establish the representation invariant'])
 
 mixed2('C08', [('contracts.cfg_gen', k) for k in ('CFGGen.generate_epsilon', 'CFGGen._set_impacts_and_remaining_lists')], ['bridge/count.lean'],
        'Deductive for generate_epsilon, the branch of contains() / __contains__ for the empty word: it returns True exactly when the start symbol is in the least set of nullable symbols (the set closed under "head of a production whose body lies in the set", starting from nothing), for every grammar and iteration order, works on a copy of the memoised counters and leaves the tables as built; the table builder is proved with it.',
@@ -312,3 +314,20 @@ mixed2('C16', [('contracts.fst', k) for k in ('FST.add_transition', 'FST.add_sta
        'contract-based deductive verification (pyvc + z3) of the structure of union / concatenate / kleene_star / to_fst and of the state renaming; bounded run-time contract checking for translate and for the relation statements',
        ['relation algebra on top of the proved structure (union, product, star of rational relations; identity on L(A)): textbook (Berstel, Transductions and Context-Free Languages, ch. III), assumed, backed by the bounded relation comparison',
         'FST._delta lists are viewed as sets of transitions (how often a transition is listed does not change the relation); list(set) is read as the set where it is only iterated'])
+
+mixed2('C11', [('contracts.cfg_inter', k) for k in ('fn._get_all_bodies', 'fn._intersection_when_two_non_terminals', 'fn._intersection_when_terminal', 'fn._intersection_starting_rules')]
+       + [('contracts.cfg_inter_main', 'CFG.intersection#fa'), ('contracts.cfg_inter_main', 'CFG.intersection#regex'), ('contracts.cfg_inter_main', 'CFG.intersection#other'), ('contracts.cfg_nf', 'CFGNF.to_normal_form')] + CONV_JOBS
+       + [('contracts.pda_inter', k) for k in ('PDA.intersection#fa', 'PDA.intersection#regex', 'PDA.intersection#other', 'PDA.add_final_state')] + [('contracts.cfg2pda', 'PDA.add_transition')], [],
+       'Deductive for the structure of CFG.intersection (operand a finite automaton or a Regex; for an operand of any other class NotImplementedError is raised on every path): with N = to_normal_form(self) and '
+       'A = to_deterministic(other) the result is the empty grammar CFG() when A has an empty language, and otherwise has start symbol Variable("Start") and exactly the Bar-Hillel productions - '
+       '[p,X,r] -> [p,Y,s][s,Z,r] for every production X -> Y Z of N and all states p, s, r of A (_intersection_when_two_non_terminals, _get_all_bodies); [p,X,delta(p,a)] -> a for every '
+       'production X -> a of N and every state p with a transition on a (_intersection_when_terminal); Start -> [q0,S,f] for every final state f (_intersection_starting_rules); Start -> (empty) '
+       'exactly when the grammar contains the empty word and the start state of A is final - and nothing else; that N is in Chomsky normal form (so that the else branch only meets one-terminal bodies) '
+       'is the proved shape of to_normal_form. ' + CONV_TEXT + 'Deductive for the structure of PDA.intersection (worklist over the reachable pairs, five nested loops; every worklist and iteration order): with A the deterministic automaton the operand is turned into, the result is PDA() when A has no start state; otherwise its start state is the pair (q0, s0), every transition of the result is a product move ((p,s), a, X) -> ((p\',s\'), push) of a move of the PDA and a step of A (s\' = s on epsilon) whose source pair is the start pair or the target of a transition of the result, every product move of such a reachable pair is a transition of the result, and a state is final iff it is a reachable pair of two final states; an operand of another class raises NotImplementedError on every path. ',
+       'contract-based deductive verification (pyvc + z3) of the Bar-Hillel construction in CFG.intersection with its four helpers and the triple-variable converter, and of the reachable product construction in PDA.intersection; bounded run-time contract checking for the two language statements',
+       ['language statements from the proved structures: Bar-Hillel theorem and the product of a PDA with a DFA (Hopcroft-Motwani-Ullman Thm 7.27), assumed, backed by the bounded comparison',
+        'PDA.intersection: _PDAStateConverter.to_pda_combined_state is modelled as the pairing State((p, s)) (injective because tuples compare by value; the numpy cache only saves allocations - by inspection); pda.TransitionFunction.__call__ returns the set of (target, push) stored for the key; is_deterministic / to_deterministic / to_epsilon_nfa of the operand are assumed (C01); the view of the result is (transitions, start state, start stack symbol, final states) - its registered states and alphabets are not part of the postcondition',
+        'assumed contracts in contracts/cfg_inter*.py: CFGVariableConverter.to_cfg_combined_variable is a function of (state, symbol, state) returning a Variable - in contracts/cfg_inter*.py it is a fixed function of the triple, while contracts/cfg_conv.py proves for the real, lazily numbering converter that an assigned variable never changes and that different registered triples get different variables - the step from the second to the first (the eventual assignment as the fixed function) is by inspection, and the constructor is assumed to establish the invariant; '
+        'DeterministicFiniteAutomaton.__call__ returns [] or [the successor]; accepts([]) of a deterministic automaton == its start state is final; contains([]) is a function of the grammar; to_deterministic returns a deterministic automaton with one start state whose start and final states are states; '
+        'language parts of to_normal_form and to_deterministic: C09, C01',
+        'Terminal.value of a terminal is read as the automaton symbol with the same value (symbol_of); Production(..., filtering=False) stores the body as given'])
